@@ -22,8 +22,31 @@ Three streams through the real `trackpy.refine.least_squares`:
   * accuracy: (supporting evidence for the convergence clause, not provable) noise-free
               gauss / ring / disc images, 2-D/3-D, singles and dimers, starts on the 1.5 px
               sphere: every centre recovered to < 0.1 px.
+  * frames  : MULTI-FRAME readers (FramesSequence look-alike, contiguous or sparse frame numbers)
+              with feature tables whose rows are frame-ascending / descending / interleaved /
+              particle-sorted / rotated, index labels default / permuted integers / strings /
+              duplicated / the frame column itself; singles and dimers, out-of-image and NaN-parameter
+              clusters, default and shared (cluster / global) parameter modes.  Direct ORACLE BY
+              LABEL, from the statement ("the affected features keep their input values ..."): every
+              output row is matched with the input row of the same label: identity column, frame
+              and foreign columns unchanged; cost NaN <=> all input values kept; clusters that must
+              fail are marked; fitted features within the mask radius of THEIR OWN start, signal /
+              size / background positive; with default settings on these noise-free frames the
+              centres are recovered to < 0.1 px.
+  * history : the result of a call is a function of its arguments: the reference call is made first,
+              then 2-5 OTHER calls in the same process (options={'maxiter': 1}, tol, other
+              fit_function / param_mode / bounds / constraints / param_val / max_iter, a call that
+              raises, a different scene), then the SAME call again: both results must be identical
+              (exact, NaN-aware) and satisfy the by-label oracle; the caller's dictionaries, table
+              and image are compared with deep copies taken before each call.
 """
+import copy
 import math
+import os
+import pickle
+import random
+import signal
+import traceback
 import warnings
 from fractions import Fraction
 
@@ -57,6 +80,19 @@ ASSUMPTIONS = [
     "before any fit is attempted; like max_iter = 0 this is a degenerate configuration, not a failed fit)",
     "max_iter >= 1 (max_iter = 0 raises UnboundLocalError in the code and `unboundRmsDev` in the "
     "model; it is not a failed fit and outside the claim); constraints=None; compute_error=False",
+    "frames / history: noise-free images of the fitted model, starts of different clusters > 13 px apart "
+    "(the separation), dimers displaced rigidly when `far`, "
+    "masks inside the image; `near` starts <= 1.2 px from the truth, signal start 0.9 x truth, size "
+    "exact -- the regime of the accuracy stream; the < 0.1 px demand is made only for default "
+    "param_mode / bounds / solver options; `far` starts (3-4 px) may fail or succeed",
+    "history: every case runs in a forked child of the worker process, so the first call of a case sees "
+    "the module state as it was before any polluting call and polluting calls never reach the cases of "
+    "the other streams (all recorded inputs replay stand-alone)",
+    "history: exact equality of the repeated call is demanded (the code path is deterministic: "
+    "SLSQP, numpy); polluting calls are not judged except for escaping exceptions in configurations "
+    "where only a fit can fail (solver options / tolerances / max_iter / max_rms_dev)",
+    "the caller's table may gain the frame column (refine_leastsq adds `frame`=0 to a table without "
+    "one when given a single image); its pre-existing columns and index must be untouched",
     "default bounds are read as: positivity (>= 1e-7) of background/signal/size when no absolute "
     "bound was requested for that parameter, |shift| <= mask radius when no difference bound was "
     "requested for that position; shared (global/cluster) parameters are held to the absolute and "
@@ -214,17 +250,123 @@ def gen_accuracy_case(rng):
     return dict(stream="accuracy", ndim=ndim, fitfun=fitfun, dimer=dimer, seed=rng.randint(0, 10 ** 9))
 
 
+# ---- scenes of the frames / history streams ---------------------------------------------------
+SC_SHAPE = (40, 60)
+SC_DIAM = 13
+SC_CELLS = [(20.0, 14.0), (20.0, 46.0)]       # features of different cells stay > 13 px apart (see gen_scene)
+SC_SIZE = {"gauss": 2.5, "ring": 4.0}
+SC_SEP = {"gauss": 2.5, "ring": 2.2}          # dimer separation in units of size (as the accuracy stream)
+ORDERS = ["asc", "desc", "interleaved", "interleaved", "particle", "rotated"]
+INDEXES = ["range", "range", "shuffled", "str", "dup", "tindex"]
+
+
+def r3(x):
+    return round(float(x), 3)
+
+
+def gen_scene(rng, multi, allow_fail=True):
+    fitfun = "ring" if rng.random() < 0.15 else "gauss"
+    size = SC_SIZE[fitfun]
+    nfr = rng.randint(2, 4) if multi else 1
+    fnos = sorted(rng.sample(range(9), nfr)) if (multi and rng.random() < 0.35) else list(range(nfr))
+    feats = []
+    for fno in fnos:
+        cells = [0, 1] if rng.random() < 0.6 else [rng.randrange(2)]
+        for cell in cells:
+            cy, cx = SC_CELLS[cell]
+            kind = rng.choice(["near"] * 15 + (["far", "out", "out", "nan", "nan"] if allow_fail else []))
+            centre = [cy + rng.uniform(-1, 1), cx + rng.uniform(-1, 1)]
+            members = [centre]
+            if rng.random() < 0.4:
+                ang = rng.uniform(0, 2 * math.pi)
+                d = size * SC_SEP[fitfun] / 2
+                members = [[centre[0] + d * math.sin(ang), centre[1] + d * math.cos(ang)],
+                           [centre[0] - d * math.sin(ang), centre[1] - d * math.cos(ang)]]
+            # every member ends up more than the mask radius outside the image (true y in 14.6..25.4, x in 8.6..51.4)
+            shift = rng.choice([[-45.0, 0.0], [SC_SHAPE[0] + 12.0, 0.0], [-400.0, 0.0], [0.0, -70.0]])
+            far_ang, far_rad = rng.uniform(0, 2 * math.pi), rng.uniform(3.0, 3.8)
+            for m, tc in enumerate(members):
+                ang = rng.uniform(0, 2 * math.pi)
+                rad = rng.uniform(0.2, 1.2)
+                if kind == "far":           # the whole cluster is displaced rigidly: it stays ONE cluster
+                    ang, rad = far_ang, far_rad
+                st = [tc[0] + rad * math.sin(ang), tc[1] + rad * math.cos(ang)]
+                if kind == "out":
+                    st = [tc[0] + shift[0], tc[1] + shift[1]]
+                feats.append(dict(frame=fno, cell=cell, true=[r3(tc[0]), r3(tc[1])], start=[r3(st[0]), r3(st[1])],
+                                  kind=kind, nan=(kind == "nan" and m == 0)))
+    return dict(fitfun=fitfun, multi=bool(multi), nframes=(max(fnos) + 1 if multi else 1), feats=feats,
+                bg=rng.choice([0, 10]), order=rng.choice(ORDERS) if multi else rng.choice(["asc", "interleaved"]),
+                index=rng.choice(INDEXES) if multi else rng.choice(["range", "shuffled", "str", "dup"]),
+                oseed=rng.randrange(10 ** 6), extra_cols=rng.random() < 0.5,
+                # presentation of the same data: column order, image dtype.  (`signal_int`, an int64 signal
+                # column, is understood by build_scene but NOT generated: on the unchanged tree the write-back
+                # of fitted values into an integer column raises TypeError with pandas >= 3 -- reported
+                # as a finding about the unchanged tree, not silenced by a tolerance)
+                colorder=rng.random() < 0.3, signal_int=False, img_f32=rng.random() < 0.3)
+
+
+PM_CHOICES = [{"size": "var"}, {"size": "cluster"}, {"signal": "cluster"}, {"background": "const"},
+              {"size": "global"}, {"signal": "global"}, {"background": "global", "size": "var"},
+              {"pos": "var", "signal": "var", "size": "var"}]
+BOUNDS_CHOICES = [{"pos_abs": 3.0}, {"signal_rel": 2.0}, {"size": [1.0, 6.0]}, {"x_abs": [2.0, 4.0], "signal_rel": [1.5, 3.0]},
+                  {"size_rel": 1.5, "pos_abs": 5.0}]
+
+
+def gen_call(rng, scene, clean_p):
+    """keyword arguments of one refine_leastsq call (JSON form)"""
+    call = dict(fit_function=scene["fitfun"])
+    if rng.random() < clean_p:
+        return call
+    if rng.random() < 0.6:
+        call["param_mode"] = dict(rng.choice(PM_CHOICES))
+    if rng.random() < 0.35:
+        call["bounds"] = copy.deepcopy(rng.choice(BOUNDS_CHOICES))
+    if rng.random() < 0.2:
+        call["max_iter"] = rng.choice([1, 2, 5])
+    if rng.random() < 0.15:
+        call["options"] = dict(maxiter=rng.choice([30, 200]))
+    if rng.random() < 0.1:
+        call["tol"] = rng.choice([1e-5, 1e-8])
+    return call
+
+
+POLLUTERS = ["maxiter1", "maxiter1", "options_ftol", "tol", "fitfun", "param_mode", "bounds", "constraints",
+             "param_val", "max_iter1", "max_rms_dev", "raises", "other_scene", "custom_fitfun", "inv_series",
+             "global", "separation"]
+
+
+def gen_frames_case(rng):
+    scene = gen_scene(rng, True)
+    return dict(stream="frames", scene=scene, call=gen_call(rng, scene, 0.7))
+
+
+def gen_history_case(rng):
+    scene = gen_scene(rng, rng.random() < 0.4, allow_fail=rng.random() < 0.5)
+    other = gen_scene(rng, rng.random() < 0.5)
+    pol = [rng.choice(POLLUTERS) for _ in range(rng.randint(2, 5))]
+    if rng.random() < 0.5 and not any(p.startswith("maxiter1") for p in pol):
+        pol[rng.randrange(len(pol))] = "maxiter1"
+    return dict(stream="history", scene=scene, other=other, call=gen_call(rng, scene, 0.5),
+                polluters=pol, pseed=rng.randrange(10 ** 6))
+
+
 def gen_cases(ctx):
     for inp in ctx.corpus():
         yield inp
     nb, nr, na = ctx.n(1500, 12000), ctx.n(700, 6000), ctx.n(80, 800)
-    for i in range(max(nb, nr, na)):
+    nf, nh = ctx.n(300, 3000), ctx.n(160, 1600)
+    for i in range(max(nb, nr, na, nf, nh)):
         if i < nb:
             yield gen_bounds_case(ctx.rng("bounds", i))
         if i < nr:
             yield gen_refine_case(ctx.rng("refine", i), i)
         if i < na:
             yield gen_accuracy_case(ctx.rng("accuracy", i))
+        if i < nf:
+            yield gen_frames_case(ctx.rng("frames", i))
+        if i < nh:
+            yield gen_history_case(ctx.rng("history", i))
 
 
 # ------------------------------------------------------------------------------------------
@@ -681,6 +823,14 @@ def run_refine(ctx, inp, res):
         if sorted(int(v) for v in out["tag"].values) != sorted(tags) or len(out) != nrows:
             res.violation("property-violation", "row set changed", signature=dict(sig0, what="rows-changed"))
             return
+        pin = sorted((repr(l), int(tg)) for l, tg in zip(before.index.tolist(), before["tag"].values))
+        pout = sorted((repr(l), int(tg)) for l, tg in zip(out.index.tolist(), out["tag"].values))
+        res.stat("refine_label_checks")
+        if pin != pout:
+            res.violation("property-violation", "by index LABEL the output rows are other features' rows: "
+                          "(label, tag) pairs %r -> %r" % (pin, pout),
+                          signature=dict(sig0, what="label-row-mismatch"))
+            return
         o = out.set_index("tag", drop=False)
         i0 = f0.set_index("tag", drop=False)
         incols = list(before.columns)
@@ -934,6 +1084,523 @@ def run_accuracy(ctx, inp, res):
                                                                    fit_function=fitfun))
     res.sample = dict(stream="accuracy", fitfun=fitfun, ndim=ndim, dimer=dimer, max_err=float(err.max()))
 
+# ------------------------------------------------------------------------------------------
+# streams 4/5: multi-frame tables judged BY LABEL; history independence
+
+class Frames:
+    """minimal FramesSequence look-alike (frame_shape + integer indexing)"""
+
+    def __init__(self, frames):
+        self.frames = list(frames)
+        self.frame_shape = self.frames[0].shape
+        self.reads = 0
+
+    def __len__(self):
+        return len(self.frames)
+
+    def __getitem__(self, i):
+        self.reads += 1
+        return self.frames[int(i)]
+
+
+def scene_extra(fitfun):
+    return {"ring": [0.2], "gauss": [], "disc": [0.5]}[fitfun]
+
+
+def build_scene(ls, scene):
+    """-> reader (Frames | ndarray), pristine copies of the images, the feature table"""
+    import pandas as pd
+    fitfun = scene["fitfun"]
+    size = SC_SIZE[fitfun]
+    feats = scene["feats"]
+    images = []
+    for fno in range(scene["nframes"]):
+        centres = [f["true"] for f in feats if f["frame"] == fno and f["kind"] != "out"] if scene["multi"] else \
+                  [f["true"] for f in feats if f["kind"] != "out"]
+        if centres or not scene["multi"]:
+            images.append(draw(ls, SC_SHAPE, centres, fitfun, size, 200.0, scene_extra(fitfun), float(scene["bg"])))
+        else:
+            images.append(np.full(SC_SHAPE, 5.0 + fno))
+    n = len(feats)
+    data = {"y": [f["start"][0] for f in feats], "x": [f["start"][1] for f in feats]}
+    if scene["multi"] or scene["extra_cols"]:
+        data["frame"] = [f["frame"] for f in feats]
+    data["signal"] = [np.nan if f["nan"] else 180.0 for f in feats]
+    data["size"] = [size] * n
+    if scene["bg"]:
+        data["background"] = [0.8 * scene["bg"]] * n
+    data["tag"] = list(range(n))
+    data["mass"] = [1000 + 3 * i for i in range(n)]
+    if scene["extra_cols"]:
+        data["name"] = ["p%02d" % (7 * i % 100) for i in range(n)]
+        data["ecc"] = [0.125 * i for i in range(n)]
+    if scene.get("signal_int") and not any(f["nan"] for f in feats):
+        data["signal"] = np.array([180] * n, dtype=np.int64)
+    t = pd.DataFrame(data)
+    order = list(range(n))
+    rnd = random.Random(scene["oseed"])
+    if scene.get("colorder"):
+        cols = list(t.columns)
+        rnd.shuffle(cols)
+        t = t[cols]
+    kind = scene["order"]
+    if kind == "desc":
+        order.sort(key=lambda i: -feats[i]["frame"])
+    elif kind == "interleaved":
+        rnd.shuffle(order)
+    elif kind == "particle":
+        order.sort(key=lambda i: (feats[i]["cell"], feats[i]["frame"]))
+    elif kind == "rotated" and n > 1:
+        k = 1 + rnd.randrange(n - 1)
+        order = order[k:] + order[:k]
+    t = t.iloc[order]
+    lay = scene["index"]
+    if lay == "range":
+        t = t.reset_index(drop=True)
+    elif lay == "shuffled":
+        lab = [7 + 5 * i for i in range(n)]
+        rnd.shuffle(lab)
+        t.index = pd.Index(lab)
+    elif lay == "str":
+        lab = ["r" + chr(97 + (i * 7) % 26) + str(i) for i in range(n)]
+        t.index = pd.Index(lab)
+    elif lay == "dup":
+        t.index = pd.Index([i // 2 for i in range(n)])
+    elif lay == "tindex":
+        t.index = pd.Index(t["frame"].values, name="frame")
+    if scene.get("img_f32"):
+        images = [im.astype(np.float32) for im in images]
+    pristine = [im.copy() for im in images]
+    reader = Frames(images) if scene["multi"] else images[0]
+    return reader, pristine, t
+
+
+def build_kwargs(ls, call):
+    kw = {}
+    for k, v in call.items():
+        if k == "bounds":
+            kw[k] = {a: (tuple(b) if isinstance(b, list) else b) for a, b in v.items()}
+        elif k == "constraints":
+            kw[k] = ls.dimer(float(v))
+        elif k == "fit_function" and v == "custom_gauss":
+            kw[k] = dict(params=[], fun=ls.gauss_fun, dfun=ls.gauss_dfun, continuous=True, default=dict())
+        elif isinstance(v, (dict, list)):
+            kw[k] = copy.deepcopy(v)
+        else:
+            kw[k] = v
+    return kw
+
+
+def images_of(reader):
+    return reader.frames if isinstance(reader, Frames) else [reader]
+
+
+def deep_same(a, b):
+    """equality of keyword-argument structures (dicts / sequences / arrays / callables)"""
+    if isinstance(a, np.ndarray) or isinstance(b, np.ndarray):
+        return isinstance(a, np.ndarray) and isinstance(b, np.ndarray) and a.dtype == b.dtype and \
+            np.array_equal(a, b, equal_nan=a.dtype.kind == "f")
+    if isinstance(a, dict) or isinstance(b, dict):
+        return isinstance(a, dict) and isinstance(b, dict) and list(a.keys()) == list(b.keys()) and \
+            all(deep_same(a[k], b[k]) for k in a)
+    if isinstance(a, (list, tuple)) or isinstance(b, (list, tuple)):
+        return type(a) is type(b) and len(a) == len(b) and all(deep_same(x, y) for x, y in zip(a, b))
+    if callable(a) or callable(b):
+        return a is b
+    return type(a) is type(b) and cell_same(a, b)
+
+
+def cell_same(a, b):
+    if isinstance(a, float) and isinstance(b, float) and math.isnan(a) and math.isnan(b):
+        return True
+    try:
+        if a != a and b != b:
+            return True
+    except Exception:
+        pass
+    return bool(a == b)
+
+
+def call_refine(res, ls, reader, pristine, table, kw, sig):
+    """one refine_leastsq call with the caller's objects audited; -> (out, exc)"""
+    t = table.copy(deep=True)
+    kw0 = copy.deepcopy(kw)
+    out = exc = None
+    try:
+        with warnings.catch_warnings():
+            warnings.simplefilter("ignore")
+            out = ls.refine_leastsq(t, reader, SC_DIAM, **kw)
+    except Exception as e:
+        exc = e
+    if not deep_same(kw, kw0):
+        ch = [k for k in kw0 if k not in kw or not deep_same(kw[k], kw0[k])] + [k for k in kw if k not in kw0]
+        ch = ch or ["<order of keys>"]
+        res.violation("property-violation", "refine_leastsq modified the caller's keyword argument(s) %r: %r -> %r"
+                      % (ch, {k: kw0.get(k) for k in ch}, {k: kw.get(k) for k in ch}),
+                      signature=dict(sig, what="caller-kwargs-modified", argument=str(ch[0])))
+    if not all(np.array_equal(a, b) for a, b in zip(images_of(reader), pristine)):
+        res.violation("property-violation", "refine_leastsq modified the caller's image(s)",
+                      signature=dict(sig, what="caller-image-modified"))
+    # the caller's table: existing columns and labels untouched (a frame column may be added)
+    same = list(t.index) == list(table.index) and all(
+        c in t.columns and len(t[c]) == len(table[c]) and
+        all(cell_same(a, b) for a, b in zip(t[c].tolist(), table[c].tolist())) for c in table.columns)
+    if not same:
+        res.violation("property-violation", "refine_leastsq modified existing columns / labels of the caller's table",
+                      signature=dict(sig, what="caller-table-modified"))
+    elif list(t.columns) != list(table.columns):
+        res.stat("caller_table_gained_columns")
+    return out, exc
+
+
+def row_desc(r):
+    return "(tag %d, frame %s, y %.3f, x %.3f)" % (int(r["tag"]), int(r["frame"]) if "frame" in r else "-",
+                                                   r["y"], r["x"])
+
+
+def lab_repr(l):
+    return repr(l.item() if hasattr(l, "item") else l)
+
+
+def judge_by_label(res, ls, scene, call, table, out, exc, sig, who="refine_leastsq"):
+    """the statement, row by row, rows identified by their index LABEL.  -> dict(nfit, nfail) | None"""
+    if exc is not None:
+        res.violation("property-violation", "%s raised %s: %s" % (who, type(exc).__name__, exc),
+                      impl="%s: %s" % (type(exc).__name__, exc),
+                      signature=dict(sig, what="raises", error=type(exc).__name__))
+        return None
+    n = len(table)
+    feats = scene["feats"]
+    lab_in = [lab_repr(l) for l in table.index.tolist()]
+    lab_out = [lab_repr(l) for l in out.index.tolist()]
+    if len(out) != n or "tag" not in out.columns or sorted(lab_in) != sorted(lab_out) or \
+            sorted(int(v) for v in out["tag"].values) != list(range(n)):
+        res.violation("property-violation", "%s: the set of rows / index labels changed: labels %s -> %s"
+                      % (who, lab_in, lab_out), signature=dict(sig, what="rows-changed"))
+        return None
+    pin = sorted(zip(lab_in, [int(v) for v in table["tag"].values]))
+    pout = sorted(zip(lab_out, [int(v) for v in out["tag"].values]))
+    i0 = table.set_index("tag", drop=False)
+    o = out.set_index("tag", drop=False)
+    if pin != pout:
+        lab = next(a[0] for a, b in zip(pin, pout) if a != b)
+        tin = [tg for l, tg in pin if l == lab]
+        tout = [tg for l, tg in pout if l == lab]
+        rin, rout = i0.loc[tin[0]], o.loc[tout[0]]
+        d = float(np.hypot(rout["y"] - rin["y"], rout["x"] - rin["x"]))
+        res.violation("property-violation",
+                      "%s: by LABEL the output rows are other features' rows: label %s was %s in the input and is "
+                      "%s with cost %r in the output (%.1f px from its own start, mask radius %d); table order %r, "
+                      "index layout %r, frames %s"
+                      % (who, lab, row_desc(rin), row_desc(rout), float(rout["cost"]), d, SC_DIAM // 2,
+                         scene["order"], scene["index"], [int(v) for v in table["frame"].values]
+                         if "frame" in table else "-"),
+                      impl=dict(labels_in=lab_in, tags_in=[int(v) for v in table["tag"].values],
+                                labels_out=lab_out, tags_out=[int(v) for v in out["tag"].values]),
+                      signature=dict(sig, what="label-row-mismatch"))
+        return None
+    ff = make_ff(ls, call.get("fit_function", "gauss") if isinstance(call.get("fit_function", "gauss"), str)
+                 and call.get("fit_function") != "custom_gauss" else "gauss", 2, True, call.get("param_mode"))
+    is_global = any(m == 2 for m in ff.modes)
+    clean = set(call) <= {"fit_function"} and call.get("fit_function") == scene["fitfun"]
+    clusters = {}
+    for i, f in enumerate(feats):
+        clusters.setdefault((f["frame"], f["cell"]), []).append(i)
+    any_mustfail = any(feats[c[0]]["kind"] in ("out", "nan") for c in clusters.values())
+    radius = SC_DIAM // 2
+    nfit = nfail = 0
+    for key, c in sorted(clusters.items()):
+        kind = feats[c[0]]["kind"]
+        costs = [float(o.loc[i, "cost"]) for i in c]
+        failed = all(math.isnan(v) for v in costs)
+        if not failed and any(math.isnan(v) for v in costs):
+            res.violation("property-violation", "%s: cost is NaN for part of a cluster only: %r" % (who, costs),
+                          signature=dict(sig, what="cost-mixed"))
+            return None
+        must = kind in ("out", "nan") or (is_global and any_mustfail)
+        if must and not failed:
+            res.violation("property-violation",
+                          "%s: cluster %r (%s) cannot have been fitted, but label(s) %s carry cost %r"
+                          % (who, key, "start outside the image" if kind == "out" else
+                             ("non-finite start parameter" if kind == "nan" else "global fit with an impossible member"),
+                             ", ".join(lab_in[list(table["tag"].values).index(i)] for i in c), costs),
+                          signature=dict(sig, what="failure-not-marked", cause=kind))
+            return None
+        for i in c:
+            lab = lab_in[list(table["tag"].values).index(i)]
+            for col in table.columns:
+                if col == "cost":
+                    continue
+                a, b = o.loc[i, col], i0.loc[i, col]
+                if (failed or col not in ff.params) and not cell_same(a, b):
+                    res.violation("property-violation",
+                                  "%s: label %s (%s): column %r changed %r -> %r"
+                                  % (who, lab, "FAILED fit, cost NaN" if failed else "fitted", col, b, a),
+                                  impl=dict(label=lab, column=col, before=str(b), after=str(a)),
+                                  signature=dict(sig, what="failed-row-changed" if failed else "other-column-changed",
+                                                 column=col if col in ("frame", "tag", "mass") else
+                                                 ("param" if col in ff.params else "other")))
+                    return None
+        if failed:
+            nfail += 1
+            if clean and kind == "near" and not is_global:
+                res.violation("property-violation",
+                              "%s: noise-free %s frame, default settings, start <= 1.2 px off: the fit of label(s) %s "
+                              "failed (cost NaN)" % (who, scene["fitfun"],
+                                                     ", ".join(lab_in[list(table["tag"].values).index(i)] for i in c)),
+                              signature=dict(sig, what="not-recovered", fit_function=scene["fitfun"], how="failed"))
+                return None
+            continue
+        nfit += 1
+        for i in c:
+            lab = lab_in[list(table["tag"].values).index(i)]
+            for a, pc in enumerate(("y", "x")):
+                v, st = float(o.loc[i, pc]), float(i0.loc[i, pc])
+                if not abs(v - st) <= radius + TOL * max(1.0, abs(v)):
+                    res.violation("property-violation",
+                                  "%s: fitted %s of label %s moved %.3f px from its own start (mask radius %d)"
+                                  % (who, pc, lab, abs(v - st), radius), impl=dict(label=lab, value=v, start=st),
+                                  signature=dict(sig, what="outside-bounds", param=pc))
+                    return None
+            for p_, m_ in zip(ff.params, ff.modes):
+                if m_ != 0 and (p_ in ("background", "signal") or p_ in ff.size_columns):
+                    v = float(o.loc[i, p_])
+                    if not v >= 1e-7 * (1 - 1e-9):
+                        res.violation("property-violation", "%s: fitted %s = %r of label %s is not positive"
+                                      % (who, p_, v, lab), signature=dict(sig, what="outside-bounds", param=p_))
+                        return None
+            if clean and kind == "near":
+                err = float(np.hypot(o.loc[i, "y"] - feats[i]["true"][0], o.loc[i, "x"] - feats[i]["true"][1]))
+                res.stat("label_accuracy_checked")
+                if not err < 0.1:
+                    res.violation("property-violation",
+                                  "%s: noise-free %s frame, default settings, start <= 1.2 px off: label %s is %.3f px "
+                                  "from the true centre" % (who, scene["fitfun"], lab, err),
+                                  impl=dict(label=lab, err=err),
+                                  signature=dict(sig, what="not-recovered", fit_function=scene["fitfun"], how="off"))
+                    return None
+    return dict(nfit=nfit, nfail=nfail)
+
+
+def run_frames(ctx, inp, res):
+    from trackpy.refine import least_squares as ls
+    scene, call = inp["scene"], inp["call"]
+    reader, pristine, t = build_scene(ls, scene)
+    kw = build_kwargs(ls, call)
+    fr = [int(v) for v in t["frame"].values]
+    grouped = all(a <= b for a, b in zip(fr, fr[1:]))
+    res.stat("frames_cases")
+    res.stat("frames_order_" + scene["order"])
+    res.stat("frames_index_" + scene["index"])
+    res.stat("frames_features", len(t))
+    for opt in ("colorder", "signal_int", "img_f32"):
+        if scene.get(opt):
+            res.stat("frames_scene_" + opt)
+    res.stat("frames_nframes_%d" % len(set(fr)))
+    if not grouped:
+        res.stat("interleaved_frame_tables")
+    if fr and max(fr) + 1 != len(set(fr)):
+        res.stat("frames_sparse_frame_numbers")
+    sig = dict(stream="frames")
+    out, exc = call_refine(res, ls, reader, pristine, t, kw, sig)
+    if res.viol:
+        return
+    info = judge_by_label(res, ls, scene, call, t, out, exc, sig)
+    if info is None:
+        return
+    res.stat("frames_clusters_fitted", info["nfit"])
+    res.stat("frames_clusters_failed", info["nfail"])
+    res.stat("frames_call_clean" if set(call) <= {"fit_function"} else "frames_call_custom")
+    res.nontrivial = (not grouped) or scene["index"] != "range"
+    res.sample = dict(stream="frames", order=scene["order"], index=scene["index"], frames=fr,
+                      fitted=info["nfit"], failed=info["nfail"], call=call)
+
+
+SAFE_POLLUTERS = {"maxiter1", "options_ftol", "tol", "max_iter1", "max_rms_dev"}
+
+
+def polluter_call(rng, name, scene, other, base):
+    """-> (which scene, JSON call)"""
+    call = dict(base)
+    if name == "maxiter1":
+        call["options"] = dict(maxiter=1)
+    elif name == "options_ftol":
+        call["options"] = dict(maxiter=rng.choice([2, 3]), ftol=1e-2, disp=False)
+    elif name == "tol":
+        call["tol"] = 1e-1
+    elif name == "fitfun":
+        call["fit_function"] = rng.choice([f for f in ("gauss", "ring", "disc") if f != base.get("fit_function")])
+    elif name == "param_mode":
+        call["param_mode"] = dict(rng.choice(PM_CHOICES))
+    elif name == "global":
+        call["param_mode"] = dict(rng.choice([{"signal": "global"}, {"size": "global", "background": "global"}]))
+    elif name == "bounds":
+        call["bounds"] = copy.deepcopy(rng.choice(BOUNDS_CHOICES))
+    elif name == "constraints":
+        call["constraints"] = 6.25
+    elif name == "param_val":
+        call["param_val"] = dict(size=3.0, signal=150.0)
+    elif name == "max_iter1":
+        call["max_iter"] = 1
+    elif name == "max_rms_dev":
+        call["max_rms_dev"] = 1e-9
+    elif name == "raises":
+        call["pos_columns"] = ["x"]
+    elif name == "other_scene":
+        return "other", dict(fit_function=other["fitfun"])
+    elif name == "custom_fitfun":
+        call["fit_function"] = "custom_gauss"
+    elif name == "inv_series":
+        call["fit_function"] = "inv_series_2"
+        call["max_iter"] = 2
+    elif name == "separation":
+        call["separation"] = 30
+    return "scene", call
+
+
+def first_difference(a, b):
+    if list(a.columns) != list(b.columns):
+        return "columns %s vs %s" % (list(a.columns), list(b.columns))
+    if [repr(x) for x in a.index.tolist()] != [repr(x) for x in b.index.tolist()]:
+        return "index %s vs %s" % (a.index.tolist(), b.index.tolist())
+    for c in a.columns:
+        if a[c].dtype != b[c].dtype:
+            return "dtype of %r: %s vs %s" % (c, a[c].dtype, b[c].dtype)
+        for k, (x, y) in enumerate(zip(a[c].tolist(), b[c].tolist())):
+            if not cell_same(x, y):
+                return "row %d (label %s) column %r: %r in the first call, %r in the repeated call" % (
+                    k, lab_repr(a.index[k]), c, x, y)
+    return None
+
+
+def run_forked(fn, ctx, inp, res):
+    """run fn(ctx, inp, res) in a forked child of this worker and merge what it reports.
+
+    The history stream makes calls that are MEANT to leave state behind if the code keeps any.  In a
+    child process (i) every case starts from the state the worker had before any polluting call, so
+    the recorded input replays stand-alone, and (ii) nothing leaks into the cases of the other
+    streams that this worker runs afterwards (their violations would not replay)."""
+    try:
+        r, w = os.pipe()
+        pid = os.fork()
+    except OSError:
+        res.stat("history_not_isolated")
+        return fn(ctx, inp, res)
+    if pid == 0:
+        code = 1
+        try:
+            os.close(r)
+            signal.setitimer(signal.ITIMER_REAL, 0)
+            sub = Result()
+            try:
+                fn(ctx, inp, sub)
+            except BaseException:
+                sub.viol.append(dict(kind="harness-error", message=traceback.format_exc()[-3000:],
+                                     implementation_output=None, model_output=None, broken=None, signature={}))
+            payload = pickle.dumps(dict(nontrivial=bool(sub.nontrivial), stats=dict(sub.stats), sample=sub.sample,
+                                        viol=sub.viol, borderline=bool(sub.borderline)))
+            with os.fdopen(w, "wb") as f:
+                f.write(payload)
+            code = 0
+        finally:
+            os._exit(code)
+    os.close(w)
+    data = b""
+    try:
+        with os.fdopen(r, "rb") as f:
+            data = f.read()
+    except BaseException:          # the per-case alarm of the runner: do not leave the child behind
+        try:
+            os.kill(pid, signal.SIGKILL)
+        except OSError:
+            pass
+        raise
+    finally:
+        try:
+            os.waitpid(pid, 0)
+        except OSError:
+            pass
+    if not data:
+        res.violation("harness-error", "the child process of a history case died without a report: %r" % (inp,))
+        return
+    got = pickle.loads(data)
+    res.nontrivial = got["nontrivial"]
+    res.borderline = got["borderline"]
+    res.sample = got["sample"]
+    res.stats.update(got["stats"])
+    res.viol.extend(got["viol"])
+    res.stat("history_isolated_in_child_process")
+
+
+def run_history(ctx, inp, res):
+    from trackpy.refine import least_squares as ls
+    scene, other, call = inp["scene"], inp["other"], inp["call"]
+    rng = random.Random(inp["pseed"])
+    built = dict(scene=build_scene(ls, scene), other=build_scene(ls, other))
+    reader, pristine, t = built["scene"]
+    kw = build_kwargs(ls, call)                  # the SAME objects are passed to the first and the repeated call
+    sig = dict(stream="history")
+    res.stat("history_cases")
+    res.stat("history_scene_multi" if scene["multi"] else "history_scene_single")
+    out1, exc1 = call_refine(res, ls, reader, pristine, t, kw, sig)
+    if res.viol:
+        return
+    info1 = judge_by_label(res, ls, scene, call, t, out1, exc1, sig, who="first call")
+    if info1 is None:
+        return
+    completed = 0
+    for name in inp["polluters"]:
+        which, pcall = polluter_call(rng, name, scene, other, call)
+        rd, pr, tt = built[which]
+        try:
+            pkw = build_kwargs(ls, pcall)
+        except Exception as e:
+            res.violation("harness-error", "polluter kwargs: %r" % (e,))
+            return
+        psig = dict(stream="history", polluter=name)
+        outp, excp = call_refine(res, ls, rd, pr, tt, pkw, psig)
+        res.stat("history_polluter_" + name)
+        if res.viol:
+            return
+        if excp is not None:
+            res.stat("history_polluter_raised_%s_%s" % (name, type(excp).__name__))
+            if name in SAFE_POLLUTERS:
+                res.violation("property-violation",
+                              "refine_leastsq(%s) raised %s: %s -- only a fit can fail in this call"
+                              % (", ".join("%s=%r" % kv_ for kv_ in pcall.items()), type(excp).__name__, excp),
+                              signature=dict(psig, what="raises", error=type(excp).__name__))
+                return
+        else:
+            completed += 1
+            if name in SAFE_POLLUTERS:
+                # whatever failed keeps its input values, by label (no accuracy demand: pass a non-clean call)
+                if judge_by_label(res, ls, built[which] is built["scene"] and scene or other, pcall,
+                                  tt, outp, None, psig, who="call with %s" % name) is None:
+                    return
+    out2, exc2 = call_refine(res, ls, reader, pristine, t, kw, sig)
+    if res.viol:
+        return
+    res.stat("history_repeat_cases")
+    res.stat("history_polluters_completed", completed)
+    said = ", ".join("%s=%r" % kv_ for kv_ in call.items()) or "defaults"
+    if exc2 is not None:
+        diff = "the repeated call raised %s: %s" % (type(exc2).__name__, exc2)
+    else:
+        diff = first_difference(out1, out2)
+    if diff is not None:
+        res.violation("property-violation",
+                      "the same refine_leastsq call (%s) gives a different result after other calls in the same "
+                      "process (%s): %s" % (said, ",".join(inp["polluters"]), diff),
+                      impl=dict(first=out1.to_dict("list"), repeated=None if out2 is None else out2.to_dict("list")),
+                      signature=dict(sig, what="history-dependent-result"))
+        return
+    # out2 is identical to out1, which satisfied the by-label oracle
+    res.stat("history_repeat_identical")
+    res.stat("history_repeat_fitted", info1["nfit"])
+    res.nontrivial = info1["nfit"] >= 1 and completed >= 1
+    res.sample = dict(stream="history", call=call, polluters=inp["polluters"], fitted=info1["nfit"],
+                      failed=info1["nfail"], multi=scene["multi"])
+
 
 def run_case(ctx, inp):
     res = Result()
@@ -944,6 +1611,10 @@ def run_case(ctx, inp):
         run_refine(ctx, inp, res)
     elif s == "accuracy":
         run_accuracy(ctx, inp, res)
+    elif s == "frames":
+        run_frames(ctx, inp, res)
+    elif s == "history":
+        run_forked(run_history, ctx, inp, res)
     else:
         res.violation("harness-error", "unknown stream %r" % s)
     return res
